@@ -87,7 +87,7 @@ impl Prop for C13 {
     }
     fn assumptions(&self) -> Vec<String> {
         vec![
-            "termination is checked as 'within a budget about 1000 times the observed maximum'; this cannot distinguish 'for ever' from 'absurdly long', either is reported".into(),
+            "termination is checked as 'within a budget about 1000 times the observed maximum'; this cannot distinguish 'for ever' from 'absurdly long', either is reported The same validity conditions are checked on the run with a user-defined node-name type (lossy Display, colliding Hash, Ord unrelated to insertion order) for every graph of <= 12 nodes and one in eight up to 64.".into(),
             "weighted = true is only used on graphs whose edges all carry positive weights".into(),
         ]
     }
@@ -213,6 +213,10 @@ impl Prop for C13 {
                     out.check(canon_level(&ci) == canon_level(last), "louvain_communities/ne_last_level_of_partitions", || format!("{:?} vs {:?}", ci, last));
                 }
             }
+        }
+        if n <= 12 || case.seed % 8 == 0 {
+            let r0 = res.unwrap_or(1.0);
+            crate::altkey::check_louvain_name_type(&ng, weighted, res, thr, case.seed, STEP_BUDGET, &|fam| modularity_oracle(&ng, fam, weighted, r0), &mut out);
         }
         out.class(format!("kind_{}", ng.spec().label()));
         out.class(format!("levels_{}", levels.len().min(4)));
